@@ -145,6 +145,10 @@ impl Property for C02 {
         for _ in 0..hz {
             gen::optimizer_hazard(rng, &mut sc.cmds);
         }
+        if rng.chance(10) {
+            gen::arith_template(rng, &mut sc.cmds);
+            sc.set_knob("arith", 1);
+        }
         sc.stdin = gen::gen_stdin(rng, 40);
         let ff = rng.chance(40);
         sc.plan = gen::gen_plan(rng, ff);
